@@ -425,7 +425,6 @@ func Leaves() []Gen {
 	for i, x := range timeVals() {
 		tv = append(tv, val(x, timeClass(i)))
 	}
-	tv = append(tv, ExtremeTimes()...) // years the date's four digits cannot hold: to be refused with an error
 	add("time.Time", reflect.TypeOf(time.Time{}), tv)
 	u1 := uuid.MustParse("01234567-89ab-cdef-0123-456789abcdef")
 	add("uuid.UUID", reflect.TypeOf(uuid.UUID{}), []Val{val(uuid.UUID{}, "zero"), val(u1, "mixed"), val(uuid.MustParse("ffffffff-ffff-ffff-ffff-ffffffffffff"), "ff")})
